@@ -118,7 +118,13 @@ def finding_key(hname, ob):
     """stable identification of a violated obligation: harness, kind, function (no line numbers)"""
     if ob.kind == "assert":
         return "%s:assert:%s" % (hname, ob.id.split("#")[0])
-    fn = ob.fn.rsplit("/", 1)[-1] if ob.fn else "?"
+    fn = ob.fn or "?"
+    # attribute to the innermost function of the repository (not a harness, not a library)
+    for f in reversed(getattr(ob, "stack", ()) or ()):
+        if MODULE in f and ".Verif" not in f and "zzverif" not in f and not re.search(r"\.c\d\d[A-Za-z]", f):
+            fn = f
+            break
+    fn = fn.rsplit("/", 1)[-1]
     return "%s:%s:%s" % (hname, ob.kind, fn)
 
 
@@ -160,15 +166,27 @@ def run_native(prop, h, cex, ob_or_none, timeout=120):
         env["VERIF_CEX"] = cex
         if h.get("synctest"):
             env["GOEXPERIMENT"] = "synctest"
-        cmd = ["go", "test", "-tags", "verif", "-vet=off", "-count=1", "-overlay", ovpath, "-run", "^TestVerifReplay$", "-v", "-timeout", "%ds" % timeout, "./" + rel if rel else "."]
-        try:
-            r = subprocess.run(cmd, cwd=REPO, env=env, capture_output=True, text=True, timeout=timeout + 120)
-            out = r.stdout + r.stderr
-            rc = r.returncode
-        except subprocess.TimeoutExpired as e:
-            out = (e.stdout or "") + (e.stderr or "") if isinstance(e.stdout, str) else ""
-            rc = -9
-            out += "\nTIMEOUT"
+        timeout = h.get("replay_timeout", timeout)
+        binp = os.path.join(work, "replay.test")
+        cmd = ["go", "test", "-tags", "verif", "-vet=off", "-c", "-o", binp, "-overlay", ovpath, "./" + rel if rel else "."]
+        r = subprocess.run(cmd, cwd=REPO, env=env, capture_output=True, text=True, timeout=900)
+        if r.returncode != 0 or not os.path.exists(binp):
+            out = "[build failed]\n" + r.stdout + r.stderr
+            rc = 1
+        else:
+            import resource
+
+            def limits():
+                lim = int(h.get("replay_mem_gb", 6)) << 30
+                resource.setrlimit(resource.RLIMIT_AS, (lim, lim))
+            try:
+                r = subprocess.run([binp, "-test.run", "^TestVerifReplay$", "-test.v", "-test.timeout", "%ds" % timeout], cwd=pkgdir if os.path.isdir(pkgdir) else REPO,
+                                   env=env, capture_output=True, text=True, timeout=timeout + 60, preexec_fn=limits)
+                out = r.stdout + r.stderr
+                rc = r.returncode
+            except subprocess.TimeoutExpired as e:
+                out = ((e.stdout or b"").decode("utf8", "replace") if isinstance(e.stdout, bytes) else (e.stdout or "")) + "\nTIMEOUT"
+                rc = -9
     finally:
         shutil.rmtree(work, ignore_errors=True)
     detail = out[-3000:]
@@ -194,8 +212,10 @@ def run_native(prop, h, cex, ob_or_none, timeout=120):
     # panic-class obligations
     if "panic:" in out and "test timed out" not in out:
         return True, detail, cex
-    if "fatal error:" in out:
+    if "fatal error:" in out or "cannot allocate memory" in out:
         return True, detail, cex
+    if kind == "panic" and ("TIMEOUT" in out or "test timed out" in out):
+        return None, "timed out instead of panicking\n" + detail, cex
     return False, detail, cex
 
 
@@ -221,7 +241,7 @@ def main():
     ap.add_argument("--tier", default=os.environ.get("VERIF_TIER", "quick"))
     ap.add_argument("--replay", default=None)
     ap.add_argument("--only", default=None)
-    ap.add_argument("--jobs", type=int, default=5)
+    ap.add_argument("--jobs", type=int, default=8)
     ap.add_argument("--keep", action="store_true")
     ap.add_argument("--no-evidence", action="store_true")
     args = ap.parse_args()
@@ -295,6 +315,7 @@ def main():
             n_unsat = sum(1 for o in obs if o.status == "unsat" and o.expect == "unsat")
             n_reach_ok = 0
             hres = {"harness": h["name"], "entry": h["fn"], "obligations": len(obs), "exec_s": round(t_exec, 2), "solver_s": round(st["solver_s"], 2), "by_solver": st["by_solver"], "blocks": E.stats["blocks"], "instrs": E.stats["instrs"], "max_loop_iters": E.stats.get("max_iters", 0), "bounds": h.get("bounds_" + tier, h.get("bounds", ""))}
+            seen_keys = {}
             for o in obs:
                 if o.kind == "reach":
                     vacuity[h["name"] + ":" + o.id] = o.status
@@ -309,9 +330,16 @@ def main():
                     continue
                 if o.status == "sat":
                     key = finding_key(h["name"], o)
+                    if o.kind == "bound":
+                        inconclusive.append("%s: modelling bound too small: %s" % (h["name"], o.id))
+                        continue
                     if o.kind == "unwind" and not h.get("unwind_is_violation"):
                         inconclusive.append("%s: unwinding bound too small at %s" % (h["name"], o.id))
                         continue
+                    if key in seen_keys:
+                        seen_keys[key] += 1
+                        continue
+                    seen_keys[key] = 1
                     ok, detail, cexp = replay_native(prop, h, o, o.model, os.path.join(ROOT, "replay", pid))
                     replayed += 1
                     if ok:
@@ -331,6 +359,9 @@ def main():
                         log("  UNCONFIRMED-CEX %s did not reproduce:\n%s" % (o.id, detail[-1500:]))
                 else:
                     inconclusive.append("%s: %s undecided (%s) %s" % (h["name"], o.id, o.status, o.note))
+            for k, c in seen_keys.items():
+                if c > 1:
+                    log("  (%d further violated obligations with key %s not replayed separately)" % (c - 1, k))
             tot["obligations"] += len([o for o in obs if o.kind != "reach"])
             tot["discharged"] += n_unsat + n_triv
             tot["trivial"] += n_triv
